@@ -407,7 +407,8 @@ def gxx_check(ctx, cases, tag, extra_head="", meaning_op="meaning", must_accept=
             lines.append("namespace r%d { extern %s; }" % (i, rendered))
             where[len(lines) + 1] = ("same", i)
             lines.append("static_assert(std::is_same<decltype(o%d::%s), decltype(r%d::%s)>::value, \"differ\");" % (i, name, i, name))
-            if a.params is None:
+            if a.params is None and not a.array:
+                # (an array of const elements becomes an array of assignable elements, as intended; not compared)
                 # asgn_value=True: a by-value declaration loses its const, anything behind a pointer/reference keeps its type
                 try:
                     asgn = a.gen_arg_as_cxx(with_template_args=True, asgn_value=True)
